@@ -75,7 +75,8 @@ contract(Contract(
         "wrapped_once": Clause("logcount('WRAP') == 1 and logcount('RENDER_CHILDREN') == 1"
                                " and result == logres('WRAP') + '\\n'", props=["C01"]),
         # (C04: what the leaf methods rendered -- code spans, links, HTML -- reaches the wrapper unmodified)
-        "wrapped_text": Clause(_paragraph_text, props=["C01", "C04"]),
+        # (C05: the task checkbox is part of what the wrapper measures, so its columns are accounted)
+        "wrapped_text": Clause(_paragraph_text, props=["C01", "C04", "C05"]),
         "wrapped_with_prefixes": Clause("logarg('WRAP', 'subsequent') == old(self._second_prefix)"
                                         " and logarg('WRAP', 'initial') == old(self._prefix)"
                                         " and logarg('RENDER_CHILDREN', 'inline_text') == ''", props=["C01"]),
